@@ -15,6 +15,16 @@ def op_features(schema, doc_text):
             return "none"
         return "union" if is_union_type(t) else "interface" if is_interface_type(t) else "object"
 
+    def absrel(ct, ptype):
+        """for two different abstract types: ct is a super-type of ptype ("super"), a sub-type ("sub") or merely overlapping ("")."""
+        if not (is_abstract_type(ct) and is_abstract_type(ptype)) or ct is ptype:
+            return ""
+        if schema.is_sub_type(ct, ptype):
+            return "super"
+        if schema.is_sub_type(ptype, ct):
+            return "sub"
+        return ""
+
     def sel(ss, ptype, in_inline, top_of_field):
         """ptype: named type the selection set is evaluated against."""
         keys = {}
@@ -53,14 +63,16 @@ def op_features(schema, doc_text):
                     continue
                 ct = schema.get_type(s.type_condition.name.value)
                 if in_inline:
-                    feats.add("nested_inline")
+                    # directly inside a fragment definition (top_of_field == "fragment_def") vs inside another inline fragment
+                    pre = "inline_in_fragment_def" if top_of_field == "fragment_def" else "nested_inline"
+                    feats.add(pre)
                     if in_inline is not True and in_inline is not ct:
-                        feats.add("nested_inline_typechange")
+                        feats.add(pre + "_typechange")
                 if is_abstract_type(ptype):
                     if ct is ptype:
                         feats.add("inline_on_same_abstract")
                     elif is_abstract_type(ct):
-                        feats.add(f"inline_on_{tkind(ct)}@{tkind(ptype)}")
+                        feats.add(f"inline_on_{absrel(ct, ptype)}{tkind(ct)}@{tkind(ptype)}")
                     else:
                         feats.add(f"inline_on_object@{tkind(ptype)}")
                 else:
@@ -79,7 +91,8 @@ def op_features(schema, doc_text):
                 if in_inline:
                     feats.add("spread_inside_inline")
                 rel = "same" if ct is ptype else ("sub" if is_abstract_type(ptype) and not is_abstract_type(ct) else
-                                                  "super" if is_abstract_type(ct) and not is_abstract_type(ptype) else "other_abstract")
+                                                  "super" if is_abstract_type(ct) and not is_abstract_type(ptype) else
+                                                  (absrel(ct, ptype) + "abstract") if absrel(ct, ptype) else "other_abstract")
                 feats.add(f"spread_{rel}_{tkind(ct)}@{tkind(ptype)}")
                 spread_rels.setdefault(s.name.value, set()).add(rel)
                 if any(x.kind == "inline_fragment" for x in fd.selection_set.selections):
@@ -124,7 +137,7 @@ def op_features(schema, doc_text):
         elif d.kind == "fragment_definition":
             ct = schema.get_type(d.type_condition.name.value)
             feats.add(f"fragment_on_{tkind(ct)}")
-            sel(d.selection_set, ct, ct, False)
+            sel(d.selection_set, ct, ct, "fragment_def")
     for fname, rels in spread_rels.items():
         if "same" in rels and fname in frags:
             def has_abstract_field(ss, t):
